@@ -75,7 +75,7 @@ type describeCaller struct{}
 func (caller describeCaller) Call(s *slip.Scope, args slip.List, depth int) slip.Object {
 	self := s.Get("self").(slip.Instance)
 	ansi := s.Get("*print-ansi*") != nil
-	right := int(s.Get("*print-right-margin*").(slip.Fixnum))
+	right := slip.RightMarginValue(s.Get("*print-right-margin*"), slip.DefaultRightMargin)
 	var b []byte
 	if di, ok := self.(slip.Describer); ok {
 		b = di.Describe(b, 0, right, ansi)
